@@ -205,12 +205,21 @@ func judge(t world.TB, f *gen.Func, u refmodel.Update, o outcome) {
 	if o.accepted {
 		want := byKey(f, refmodel.Fold(f, o.before, u))
 		for i, b := range o.before {
-			if !addr[i] || !changeable(f, b) {
+			if !addr[i] {
 				continue
 			}
 			k, _ := gen.KeyOf(f, b)
 			w, wantPresent := want[k]
 			a, present := after[k]
+			if !changeable(f, b) {
+				// P1 has established that the protected element is untouched; if the write asked for a
+				// change of it, that change was dropped silently while the peer was told "success"
+				// (the full write is the open finding of P1 and replaces the data wholesale)
+				if u.HasFilter() && (!wantPresent || withoutFlag(f, w) != withoutFlag(f, b)) {
+					world.Fail(t, "C04/success-not-applied/"+shape+"/refused-part-dropped", "P4: success result, but the part of the write that addresses the protected element %s (flag %s) was not applied%s", k, flagOf(f, b), desc())
+				}
+				continue
+			}
 			if wantPresent != present {
 				world.Fail(t, "C04/success-not-applied/"+shape, "P4: success result, but element %s present=%v, expected present=%v%s", k, present, wantPresent, desc())
 			}
@@ -413,6 +422,47 @@ func TestSweep(t *testing.T) {
 					nt := strings.ContainsAny(flagPattern(f, list), "F-") && strings.Contains(addrPattern(addr), "x")
 					world.Record(world.Hash("sweep", fn, shape, flagPattern(f, list), target), nt, "sweep/"+shape)
 					world.Guard(func() { judge(t, f, u, o) })
+				}
+			}
+			// combinations: a delete filter on one element together with a partial filter on another
+			// (or the same) one, the partial part with identifier / with a selector / without either
+			if c := listgen.CapsOf(f); !c.Selectors || !c.Elements {
+				continue
+			}
+			for dt := uint64(0); dt <= uint64(maxLen); dt++ {
+				for pt := uint64(0); pt <= uint64(maxLen); pt++ {
+					for variant := 0; variant < 6; variant++ {
+						n++
+						if n%shards != shard {
+							continue
+						}
+						u := refmodel.Update{Delete: true, Partial: true, DeleteSelector: listgen.SelectorFor(f, []uint64{dt})}
+						if variant >= 3 {
+							e := reflect.New(f.ElementsType)
+							ef := e.Elem().FieldByName(valueField)
+							ef.Set(reflect.New(ef.Type().Elem()))
+							u.DeleteElements = e
+						}
+						idless := reflect.New(f.ItemType).Elem()
+						setScalar(idless.FieldByName(valueField), 2)
+						switch variant % 3 {
+						case 0:
+							u.Items = []reflect.Value{mk(pt, flagAbsent, 2)}
+						case 1:
+							u.PartialSelector = listgen.SelectorFor(f, []uint64{pt})
+							u.Items = []reflect.Value{idless}
+						case 2:
+							if pt != 0 {
+								continue // the identifier-less partial part has no target
+							}
+							u.Items = []reflect.Value{idless}
+						}
+						o := execute(t, f, list, u)
+						addr := addressed(f, o.before, u)
+						nt := strings.ContainsAny(flagPattern(f, list), "F-") && strings.Contains(addrPattern(addr), "x")
+						world.Record(world.Hash("sweep-combined", fn, variant, flagPattern(f, list), dt, pt), nt, "sweep/combined/"+u.Shape())
+						world.Guard(func() { judge(t, f, u, o) })
+					}
 				}
 			}
 		}
